@@ -6,6 +6,7 @@ import ZkElGamal.Props.C02
 import ZkElGamal.Props.C03
 import ZkElGamal.Props.C20
 import ZkElGamal.Proofs.RangeProve
+import ZkElGamal.Proofs.Toy
 /-!
 # C05 — every true statement with a valid witness can be proven, and the proof verifies
 
@@ -854,3 +855,74 @@ theorem complete (gens : ℕ → List G × List G) (k width : ℕ)
   · rw [← hcomm] at hm; exact hm
 
 end Zk.Props.C05.Range
+
+/-! non-vacuity of the completeness theorems: their hypotheses are met in the toy lawful instance -/
+namespace Zk.Props.C05
+open Zk Zk.Toy Zk.Sigma
+
+example : ∃ b : Bytes, ZeroCt.verifyProof TF TG Bytes b = true := by
+  let s : TF := 2
+  let P : TG := (0, 7)          -- s⁻¹ • H  (2·7 = 1 mod 13)
+  let ct : Ct TG := ⟨(0, 3), (0, 8)⟩   -- r = 3: C = r•H, D = r•P
+  let y : TF := 5
+  have h0 : decryptTarget s ct = 0 := by decide
+  obtain ⟨b, hb⟩ : ∃ b, ZeroCt.new Bytes s P ct y = some b := ⟨_, ZeroCt.new_ok (T := Bytes) s y P ct h0⟩
+  exact ⟨b, ZeroCt.complete s y P ct b hb (by decide) (by decide) (by decide) (by decide) (by decide)⟩
+
+example : ∃ b : Bytes, PubkeyValidity.verifyProof TF TG Bytes b = true := by
+  let s : TF := 2
+  let P : TG := (0, 7)
+  have hinv : (2 : TF)⁻¹ = 7 := inv_eq_of_mul_eq_one_right (by decide)
+  have hP : P = s⁻¹ • (PedGens.H : TG) := by
+    show ((0, 7) : TG) = (2 : TF)⁻¹ • (PedGens.H : TG)
+    rw [hinv]; decide
+  exact ⟨_, PubkeyValidity.complete (T := Bytes) s 5 P _ (PubkeyValidity.new_ok s 5 P) (by decide) hP
+    (by decide) (by decide)⟩
+
+example : ∃ b : Bytes, Validity.verifyProof TF TG Bytes 2 b = true := by
+  let P1 : TG := (0, 7)
+  let P2 : TG := (0, 0)                -- identity auditor key
+  let g : GCt TG := groupedEncryptWith [P1, P2] (ScCodec.ofNat 9 : TF) 4
+  have hne : Validity.new Bytes 2 [P1, P2] g 9 (4 : TF) 3 6 ≠ none :=
+    (C20.validity_new_none_iff (T := Bytes) 2 [P1, P2] g 9 (4 : TF) 3 6).not.mpr (not_not.mpr rfl)
+  obtain ⟨b, hb⟩ := Option.ne_none_iff_exists'.mp hne
+  exact ⟨b, Validity.complete2 P1 P2 g 9 4 3 6 b hb (by decide) (by decide) (by decide) (by decide)⟩
+
+example : ∃ b : Bytes, BatchedValidity.verifyProof TF TG Bytes 2 b = true := by
+  let P1 : TG := (0, 7)
+  let P2 : TG := (0, 5)
+  let lo : GCt TG := groupedEncryptWith [P1, P2] (ScCodec.ofNat 9 : TF) 4
+  let hi : GCt TG := groupedEncryptWith [P1, P2] (ScCodec.ofNat 2 : TF) 11
+  have hne : BatchedValidity.new Bytes 2 [P1, P2] lo hi 9 2 (4 : TF) 11 3 6 ≠ none :=
+    (C20.batched_validity_new_none_iff (T := Bytes) 2 [P1, P2] lo hi 9 2 (4 : TF) 11 3 6).not.mpr
+      (not_not.mpr ⟨rfl, rfl⟩)
+  obtain ⟨b, hb⟩ := Option.ne_none_iff_exists'.mp hne
+  exact ⟨b, BatchedValidity.complete2 P1 P2 lo hi 9 2 4 11 3 6 b hb (by decide) (by decide) (by decide)
+    (by decide) (by decide)⟩
+
+/-- below the cap (equality branch real) -/
+example : ∃ b : Bytes, Cap.verifyProof TF TG Bytes b = true := by
+  let n : Cap.Nonces TF := ⟨1, 2, 3, 4, 5, 6, 7, 8, 9, 10⟩
+  let Cm : TG := pedersenWith (ScCodec.ofNat 2 : TF) 3
+  let Cd : TG := pedersenWith (ScCodec.ofNat 4 : TF) 5
+  let Cc : TG := pedersenWith (ScCodec.ofNat 4 : TF) 6
+  have hne : Cap.new Bytes Cm Cd Cc 5 2 4 (3 : TF) 5 6 n ≠ none :=
+    (C20.cap_new_none_iff (T := Bytes) Cm Cd Cc 5 2 4 (3 : TF) 5 6 n).not.mpr (not_not.mpr ⟨rfl, fun _ => rfl, rfl⟩)
+  obtain ⟨b, hb⟩ := Option.ne_none_iff_exists'.mp hne
+  exact ⟨b, Cap.complete_below Cm Cd Cc 5 2 4 3 5 6 n b hb (by decide) (by norm_num) (by decide) (by decide)
+    (by decide) (by decide) (by decide) (by decide)⟩
+
+/-- at the cap (max branch real; the delta commitment is unrelated to the claimed one) -/
+example : ∃ b : Bytes, Cap.verifyProof TF TG Bytes b = true := by
+  let n : Cap.Nonces TF := ⟨1, 2, 3, 4, 5, 6, 7, 8, 9, 10⟩
+  let Cm : TG := pedersenWith (ScCodec.ofNat 5 : TF) 3
+  let Cd : TG := (7, 7)
+  let Cc : TG := pedersenWith (ScCodec.ofNat 4 : TF) 6
+  have hne : Cap.new Bytes Cm Cd Cc 5 5 4 (3 : TF) 5 6 n ≠ none :=
+    (C20.cap_new_none_iff (T := Bytes) Cm Cd Cc 5 5 4 (3 : TF) 5 6 n).not.mpr
+      (not_not.mpr ⟨rfl, fun h => absurd h (by decide), rfl⟩)
+  obtain ⟨b, hb⟩ := Option.ne_none_iff_exists'.mp hne
+  exact ⟨b, Cap.complete_at Cm Cd Cc 5 4 3 5 6 n b hb (by norm_num) (by decide) (by decide)
+    (by decide) (by decide) (by decide) (by decide)⟩
+
+end Zk.Props.C05
